@@ -109,5 +109,8 @@ def chk_stop(w):
 def replay(path):
     d = json.load(open(path))
     if d.get('side') == 'worker': return replay_file(path)
+    if d.get('side') == 'server':
+        from props import srvrdiff
+        return srvrdiff.replay_file(path)
     if 'tokens' in d: return srvchecks.replay_file(path)
     print(d); return 1
